@@ -1117,9 +1117,13 @@ func (e *Entry) Augment(addErrors bool) (processed, skipped int) {
 	var unapplied []*Entry
 	for _, a := range e.Augments {
 		target := a.Find(a.Name)
-		if target == nil {
+		if target == nil || !target.IsDir() {
 			if addErrors {
-				e.errorf("%s: augment %s not found", Source(a.Node), a.Name)
+				if target == nil {
+					e.errorf("%s: augment %s not found", Source(a.Node), a.Name)
+				} else {
+					e.errorf("%s: augment %s: target node cannot have child nodes", Source(a.Node), a.Name)
+				}
 			}
 			skipped++
 			unapplied = append(unapplied, a)
